@@ -96,6 +96,11 @@ class EncodeState:
 
         raw_value: AtomicOdxType
 
+        if bit_length < 0:
+            odxraise(f"The bit length of an object must not be negative (is: {bit_length})",
+                     EncodeError)
+            bit_length = 0
+
         if bit_length > 64 and base_data_type in (DataType.A_INT32, DataType.A_UINT32):
             # the accelerated version of bitstruct does not support
             # integers of more than 64 bits
